@@ -34,7 +34,7 @@ def main():
         ran.append(f'demo.py on pristine copy of /repo HEAD: exit {r0.returncode}')
         p = run(['patch', '-p1', '-s', '-d', tmp], input=open(os.path.join(src, 'patch.diff')).read())
         if p.returncode != 0:
-            print('PATCH FAILED', p.stdout, p.stderr); return 2
+            print(f'{name}: PATCH NO LONGER APPLIES to the current /repo tree'); return 2
         rp = run([sys.executable, '/verif/tools/pinned.py', tmp])
         ran.append('pinned suite on patched copy: ' + rp.stdout.strip().split('\n')[0])
         r1 = run(['/venv/bin/python', demo], env=env, cwd=tmp)
@@ -58,13 +58,16 @@ def main():
         if '--keep' in sys.argv and confirmed:
             dst = os.path.join('/verif/seeded', name)
             os.makedirs(dst, exist_ok=True)
-            shutil.copy(os.path.join(src, 'patch.diff'), dst)
-            shutil.copy(demo, dst)
+            if os.path.abspath(src) != os.path.abspath(dst):
+                shutil.copy(os.path.join(src, 'patch.diff'), dst)
+                shutil.copy(demo, dst)
             old = {}
             if os.path.exists(os.path.join(dst, 'meta.json')):
                 old = json.load(open(os.path.join(dst, 'meta.json')))
-            meta2 = {'property': meta['property'], 'summary': meta.get('summary'), 'needs_to_manifest': meta.get('needs'),
-                     'files': meta.get('files'), 'confirmed_by': ran[:3],
+            commit = subprocess.check_output(['git', '-C', '/repo', 'rev-parse', '--short', 'HEAD'], text=True).strip()
+            meta2 = {'property': meta['property'], 'summary': meta.get('summary'),
+                     'needs_to_manifest': meta.get('needs') or meta.get('needs_to_manifest'),
+                     'files': meta.get('files'), 'confirmed_by': ran[:3], 'confirmed_on_repo_commit': commit,
                      'checks': dict(old.get('checks', {}), **verdicts)}
             json.dump(meta2, open(os.path.join(dst, 'meta.json'), 'w'), indent=1)
         return 0
